@@ -167,6 +167,7 @@ pub fn knobs_at_level(knobs: &SimKnobs, level: u8) -> SimKnobs {
     }
     if level >= 2 {
         k.log_thin = 0;
+        k.atomic_thin = 0;
     }
     k
 }
